@@ -15,7 +15,7 @@ import (
 // filled buffer in the middle of the stream puts padding between records.
 func ruleBufferedOrder(r *Report) {
 	const rule = "buffered-order"
-	r.Rule(rule, 4, "recordio.Writer.Write bypasses the buffer only when the buffer is empty and never in the block-aligned flavour, and tops the buffer up from the argument before every flush inside the write loop")
+	r.Rule(rule, 5, "recordio.Writer.Write bypasses the buffer only when the buffer is empty and never in the block-aligned flavour, and tops the buffer up from the argument before every flush inside the write loop")
 	fn := r.NeedFunc(rule, "recordio.Writer.Write")
 	if fn == nil {
 		return
@@ -47,23 +47,26 @@ func ruleBufferedOrder(r *Report) {
 				continue
 			}
 			bo, isB := cnd.(*ssa.BinOp)
-			if !isB || (bo.Op != token.EQL && bo.Op != token.NEQ) {
+			if !isB {
 				continue
 			}
-			var other ssa.Value
-			if z, isZ := constInt(bo.Y); isZ && z == 0 {
-				other = bo.X
-			} else if z, isZ := constInt(bo.X); isZ && z == 0 {
-				other = bo.Y
-			}
-			if other == nil || !isField(other, "n") {
-				continue
-			}
-			if bo.Op == token.EQL && tE {
-				removed[Edge{b, tS}] = true
-			}
-			if bo.Op == token.NEQ && fE {
-				removed[Edge{b, fS}] = true
+			// every way of asking "is the buffer empty": n == 0, n != 0, n > 0, n <= 0 (a count is never negative), with
+			// the operands in either order
+			for _, v := range cmpViews(bo) {
+				z, isZ := constInt(v.Y)
+				if !isZ || z != 0 || !isField(v.X, "n") {
+					continue
+				}
+				switch v.Op {
+				case token.EQL, token.LEQ:
+					if tE {
+						removed[Edge{b, tS}] = true
+					}
+				case token.NEQ, token.GTR:
+					if fE {
+						removed[Edge{b, fS}] = true
+					}
+				}
 			}
 		}
 		bad := false
@@ -75,6 +78,85 @@ func ruleBufferedOrder(r *Report) {
 		}
 		if !bad {
 			r.OK(rule, key, bypass[0].Pos(), "direct write only through the b.n == 0 edge")
+		}
+	}
+	// (1a') the count Write returns is the sum over all rounds of its loop: the direct write sits in that loop (earlier
+	// rounds top up and flush the buffer), so its count is added to what the rounds before it took, never returned or
+	// stored in place of it
+	{
+		ckey := rule + "/recordio.Writer.Write/count-accumulates"
+		inLoop := func(s Site) bool {
+			for _, su := range s.Block.Succs {
+				if reachFrom(su, nil)[s.Block] {
+					return true
+				}
+			}
+			for _, pr := range s.Block.Preds {
+				if reachFrom(s.Block, nil)[pr] && pr != s.Block {
+					return true
+				}
+			}
+			return false
+		}
+		bad := ""
+		for _, bp := range bypass {
+			// reachable from a round that went through the buffer?
+			behindRound := inLoop(bp)
+			if !behindRound {
+				for _, b := range liveBlocks(fn) {
+					for _, su := range b.Succs {
+						if dominates(su, b) && reachFrom(su, nil)[bp.Block] {
+							behindRound = true
+						}
+					}
+				}
+			}
+			if !behindRound {
+				continue
+			}
+			var cnt ssa.Value
+			if refs := bp.Instr.(ssa.Value).Referrers(); refs != nil {
+				for _, rf := range *refs {
+					if ex, ok := rf.(*ssa.Extract); ok && ex.Index == 0 {
+						cnt = ex
+					}
+				}
+			}
+			if cnt == nil {
+				continue
+			}
+			for _, rs := range returnsOf(fn) {
+				ret := rs.Instr.(*ssa.Return)
+				if len(ret.Results) == 0 {
+					continue
+				}
+				v := ret.Results[0]
+				cands := []ssa.Value{v}
+				if u, isU := v.(*ssa.UnOp); isU && u.Op == token.MUL && isCell(u.X) {
+					if svs, unk := reachingStores(u); !unk {
+						cands = svs
+					}
+				}
+				for _, cv := range cands {
+					if cv == cnt {
+						bad = r.P.Pos(rs.Pos())
+					}
+					if ph, isPhi := cv.(*ssa.Phi); isPhi {
+						for _, e := range ph.Edges {
+							if e == cnt {
+								bad = r.P.Pos(rs.Pos())
+							}
+						}
+					}
+				}
+			}
+		}
+		if len(bypass) == 0 {
+			r.OK(rule, ckey, fn.Pos(), "Write never bypasses the buffer")
+		} else if bad != "" {
+			r.Bad(rule, ckey, bypass[0].Pos(), "the count of the direct write is returned ("+bad+") in place of the sum of all rounds: a record that is larger than the free buffer plus one buffer went partly through the buffer first, the caller is told a short count — FileWriter.Write fails with \"mismatch in written record len\" for records above twice the write buffer, and with write buffers smaller than a record header Size() and every later offset drift")
+		} else {
+			r.OK(rule, ckey, bypass[0].Pos(), "the direct write's count is added to the rounds before it")
 		}
 	}
 	// (1b) and never in the block-aligned flavour: the file is opened with O_DIRECT there, which takes whole aligned
@@ -366,25 +448,50 @@ func ruleDirectIOWriterBuffer(r *Report) {
 	}
 	bs, haveBS := pkgConst(r.P, "directio", "BlockSize")
 	related := false
-	eachInstr(fn, func(s Site) {
-		bo, ok := s.Instr.(*ssa.BinOp)
-		if !ok {
-			return
-		}
-		switch bo.Op {
-		case token.REM, token.QUO, token.AND, token.AND_NOT:
-		default:
-			return
-		}
-		k, isK := constInt(bo.Y)
-		if !isK || (haveBS && k != int64(bs) && k != int64(bs)-1) || (!haveBS && k != 4096 && k != 4095) {
-			return
-		}
-		if size != nil && valueDependsOn(bo.X, func(x ssa.Value) bool { return x == ssa.Value(size) }) {
-			related = true
-		}
-	})
 	arg := blocks[0].Call().Common().Args[0]
+	relatesTo := func(g *ssa.Function, of ssa.Value) bool {
+		found := false
+		eachInstr(g, func(s Site) {
+			bo, ok := s.Instr.(*ssa.BinOp)
+			if !ok {
+				return
+			}
+			switch bo.Op {
+			case token.REM, token.QUO, token.AND, token.AND_NOT:
+			default:
+				return
+			}
+			k, isK := constInt(bo.Y)
+			if !isK || (haveBS && k != int64(bs) && k != int64(bs)-1) || (!haveBS && k != 4096 && k != 4095) {
+				return
+			}
+			if of != nil && valueDependsOn(bo.X, func(x ssa.Value) bool { return x == of }) {
+				found = true
+			}
+		})
+		return found
+	}
+	if size != nil {
+		related = relatesTo(fn, size)
+	}
+	if !related && size != nil {
+		// the arithmetic in a newly extracted helper: it is handed the size, and the allocated size is built from its result
+		eachInstr(fn, func(s Site) {
+			c, ok := s.Instr.(*ssa.Call)
+			if !ok {
+				return
+			}
+			g := c.Call.StaticCallee()
+			if g == nil || !isFresh(g) || len(g.Blocks) == 0 || !valueDependsOn(arg, func(x ssa.Value) bool { return x == ssa.Value(c) }) {
+				return
+			}
+			for i, a := range c.Call.Args {
+				if i < len(g.Params) && valueDependsOn(a, func(x ssa.Value) bool { return x == ssa.Value(size) }) && relatesTo(g, g.Params[i]) {
+					related = true
+				}
+			}
+		})
+	}
 	if related && arg != ssa.Value(size) {
 		r.OK(rule, key, blocks[0].Pos(), "the buffer size is rounded to the block size")
 	} else {
